@@ -2,6 +2,7 @@ package main
 
 import (
 	"go/ast"
+	"go/token"
 	"go/types"
 	"strings"
 
@@ -155,6 +156,77 @@ func (c *Ctx) errOverwrittenRule(rule string, f *ssa.Function) {
 					continue
 				}
 				c.info(rule, key, c.ipos(call), "result not taken in the source")
+				continue
+			}
+			// read — but by merges only? Then on a path from here into a merge by another edge, carrying another value, the
+			// error is replaced without anybody having looked at it (`err = a(); if c { err = b() }; return err`)
+			onlyMerged := true
+			for _, r := range *e.Referrers() {
+				switch r.(type) {
+				case *ssa.Phi, *ssa.DebugRef:
+				default:
+					onlyMerged = false
+				}
+			}
+			bad := ""
+			if onlyMerged {
+				for _, r := range *e.Referrers() {
+					phi, ok := r.(*ssa.Phi)
+					if !ok {
+						continue
+					}
+					for j, v := range phi.Edges {
+						if v == e || isFreshError(v) {
+							continue // replaced by an error made on the spot: a failure either way
+						}
+						pred := phi.Block().Preds[j]
+						// can the definition of e reach the end of pred without going through the merge?
+						last := pred.Instrs[len(pred.Instrs)-1]
+						reach := call.Block() == pred && instrIndex(call) < len(pred.Instrs)
+						if !reach {
+							reach = pathAvoiding(call, func(i ssa.Instruction) bool { return i.Block() == phi.Block() }, func(i ssa.Instruction) bool { return i == last }) != nil
+						}
+						if reach {
+							bad = c.ipos(last)
+						}
+					}
+				}
+			}
+			// the same through a variable kept in memory (a named result of a function with deferred calls): a path from the
+			// store of e to another store into the same variable with no load in between
+			if bad == "" {
+				for _, r := range *e.Referrers() {
+					st, ok := r.(*ssa.Store)
+					if !ok || st.Val != e {
+						continue
+					}
+					a, ok := st.Addr.(*ssa.Alloc)
+					if !ok {
+						continue
+					}
+					captured := false
+					for _, ar := range *a.Referrers() {
+						if _, isMC := ar.(*ssa.MakeClosure); isMC {
+							captured = true
+						}
+					}
+					if captured {
+						continue
+					}
+					hit := pathAvoiding(st, func(i ssa.Instruction) bool {
+						u, ok := i.(*ssa.UnOp)
+						return ok && u.Op == token.MUL && u.X == ssa.Value(a)
+					}, func(i ssa.Instruction) bool {
+						s2, ok := i.(*ssa.Store)
+						return ok && s2 != st && s2.Addr == ssa.Value(a) && !isFreshError(s2.Val) && s2.Val != e
+					})
+					if hit != nil {
+						bad = c.ipos(hit)
+					}
+				}
+			}
+			if bad != "" {
+				c.violate(rule, key, c.ipos(call), "the error returned by "+from+" is only ever merged with other values: on the path that leaves "+bad+" another value takes its place and nobody has looked at it — a failure of this step is covered by the outcome of the next one")
 				continue
 			}
 			c.ok(rule, key, c.ipos(call), "error value read")
